@@ -229,6 +229,7 @@ type vKindSys struct {
 	train      [][]float32                   // explicit training set (nil = cfg.Train)
 	hook       func(s *vKindSys, h []string) // extra per-state checks (C13, C14)
 	noMulti    bool
+	inRecheck  bool
 	aliasTrain bool        // Add operations add the training slices themselves
 	owned      [][]float32 // the caller-owned slices of the current instance
 	c          *vCtx
@@ -446,13 +447,7 @@ func (s *vKindSys) scoreOf(q []float32) func(id uint32, v []float32) float64 {
 }
 
 func (s *vKindSys) observe(h []string) {
-	canonBefore := vCanonVec(s.idx)
-	defer func() {
-		s.c.Evaluations++
-		if after := vCanonVec(s.idx); after != canonBefore {
-			s.c.Violation("search-modified-index", "", s.cfgS, h, fmt.Sprintf("index state before the queries [%s] after [%s]", canonBefore, after))
-		}
-	}()
+	defer s.recheck(h)
 	mkey := ""
 	for qi, q := range s.qs {
 		s.c.Evaluations++
@@ -499,6 +494,22 @@ func (s *vKindSys) observe(h []string) {
 	if s.hook != nil {
 		s.hook(s, h)
 	}
+}
+
+// recheck: searching must not change later answers (see vFlatSys.recheck).
+func (s *vKindSys) recheck(h []string) {
+	if s.inRecheck {
+		return
+	}
+	s.inRecheck = true
+	defer func() { s.inRecheck = false }()
+	all, nm, hk := s.qs, s.noMulti, s.hook
+	if len(all) > 48 {
+		s.qs = all[:48]
+	}
+	s.noMulti, s.hook = true, nil
+	s.observe(h)
+	s.qs, s.noMulti, s.hook = all, nm, hk
 }
 
 func vCauseVec(m *vVecModel, res []VectorResult) string {
